@@ -449,7 +449,10 @@ class HTTPChannel(wasyncore.dispatcher):
         except ClientDisconnected:
             self.logger.info("Client disconnected while serving %s" % task.request.path)
             task.close_on_finish = True
-        except Exception:
+        except BaseException:
+            # BaseException, not Exception: an application that raises e.g.
+            # SystemExit must not skip the epilogue below, or the request is
+            # never popped and the connection is wedged forever
             self.logger.exception("Exception while serving %s" % task.request.path)
 
             if not task.wrote_header:
